@@ -17,6 +17,7 @@ S3-compatible storage:
     DATASHARD_S3_PREFIX=optional/prefix/ (optional, default: "")
 """
 
+import errno
 import io
 import json
 import os
@@ -265,8 +266,16 @@ class LocalStorageBackend(StorageBackend):
         )
 
         try:
-            # Write content to temp file
-            os.write(fd, content)
+            # Write content to temp file. os.write() may accept only a PREFIX
+            # (disk filling up, quota / RLIMIT_FSIZE, signal): loop until every
+            # byte is written - a short write that is fsynced and renamed into
+            # place would publish a truncated file and acknowledge the commit.
+            view = memoryview(content)
+            while len(view) > 0:
+                written = os.write(fd, view)
+                if written <= 0:
+                    raise OSError(errno.ENOSPC, f"short write to {temp_path}")
+                view = view[written:]
 
             # Ensure data is written to disk (durability guarantee)
             os.fsync(fd)
